@@ -16,7 +16,7 @@ for d in seeded/${1:-}*/; do
   [ -f "$d/patch.diff" ] || continue
   checks=$(python3 -c "import json,os;m=json.load(open('$d/meta.json'));c=m['checks_run_against_it'];print(' '.join(c if os.environ.get('ALL') else c[:1]))")
   if [ -n "$(git -C "$REPO" status --porcelain --untracked-files=no)" ]; then echo "/repo not clean"; exit 2; fi
-  git -C "$REPO" apply "$d/patch.diff" || { echo "| $id | - | patch does not apply | |" >> $OUT; continue; }
+  git -C "$REPO" apply "$(pwd)/$d/patch.diff" || { echo "| $id | - | patch does not apply | |" >> $OUT; continue; }
   for P in $checks; do
     R=$(./check "$P" quick 2>&1); RC=$?
     clause=$(echo "$R" | grep -a "^violation" | head -1 | sed 's/^violation: //' | cut -c1-110 | tr '|' '/')
